@@ -29,7 +29,7 @@ Vals(k) ==
       [] k = "maxRetries" -> {Num("21")} [] k = "MaxRetries" -> {Num("22")} [] k = "maxretries" -> {Num("23")}     \* the last is no key of any field
       [] k \in {"rest", "rests", "restt"} -> {[t |-> "m", kv |-> <<<<"p", Marker(k)>>, <<"colour", Str("blue")>>>>]}     \* a key spelled like the catch-all field's own (lower-cased) Go name: it is a key like any other
       [] k = "flag" -> {Bool(TRUE)}
-      [] k = "ratio" -> {Num("2.5")}
+      [] k = "ratio" -> {Num("2.5"), Num("3")}          \* an integer is a well-typed value for a float field
       [] k \in {"tags", "labels"} -> {[t |-> "q", e |-> <<Marker(k), Str("second")>>]}
       [] k = "items" -> {[t |-> "q", e |-> <<Marker(k), Num("7"), Null>>], EmptySeq}
       [] k = "env" -> {[t |-> "m", kv |-> <<<<"A", Marker(k)>>>>], [t |-> "m", kv |-> <<<<"A", Marker(k)>>, <<"EMPTY", Null>>>>]}   \* a null inside a map of strings
